@@ -156,6 +156,7 @@ func (s *sim) runMethod(method string, during []Step) error {
 		cmds[i].Method = m
 		s.w.Emit(s.absCommand("method", method, &cmds[i]))
 	}
+	s.dumpRec()
 	s.w.Emit(trace.M{"e": "End", "controller": "disruption.method", "object": method, "err": short(errS), "panic": panicked})
 	return nil
 }
@@ -190,6 +191,25 @@ func (s *sim) runRound(during []Step) error {
 	// the informers see what the controller wrote
 	s.hydrate()
 	return nil
+}
+
+// dumpRec logs (and clears) the Karpenter events published since the last call (VERIF_DEBUG only; never judged).
+func (s *sim) dumpRec() {
+	if os.Getenv("VERIF_DEBUG") == "" {
+		s.w.Rec.Events = nil
+		return
+	}
+	for _, ev := range s.w.Rec.Events {
+		obj := "-"
+		if ev.InvolvedObject != nil {
+			obj = fmt.Sprintf("%T/%v", ev.InvolvedObject, ev.InvolvedObject)
+			if len(obj) > 60 {
+				obj = obj[:60]
+			}
+		}
+		s.w.Emit(trace.M{"e": "Note", "what": "event", "kind": ev.Reason, "name": obj, "msg": short(ev.Message)})
+	}
+	s.w.Rec.Events = nil
 }
 
 func (s *sim) runQueue() {
@@ -369,8 +389,9 @@ func RunOne(sc *Scenario, tw *trace.Writer) (err error) {
 	if t, ok := cfg["tags"].(map[string]any); ok {
 		tags = t
 	}
+	raw, _ := json.Marshal(sc)
 	tw.Begin(trace.M{"module": "Disruption", "name": sc.Name, "tags": tags, "t0": sc.T0, "nominationWindow": s.nomWin,
-		"validationDelay": 15, "scenario": cfg, "spotToSpot": sc.Options.SpotToSpot})
+		"validationDelay": 15, "scenario": cfg, "scenarioJson": string(raw), "spotToSpot": sc.Options.SpotToSpot})
 	w.Sink = tw.Emit
 	tick := w.Clock.OnTick
 	w.Clock.OnTick = func(to time.Time) {
